@@ -465,3 +465,11 @@ Qed.
 Print Assumptions C05_fs_comp_monotone.
 Print Assumptions C05_fs_comp_complete.
 Print Assumptions C05_fs_comp_example.
+
+(* ---------- Tie A, level 1 for the repair loop (tools/src2v3_repair.py -> gen/Src3r.v): `convert_to_archive` as
+   translated from /repo on every run is simulated by Repair.repair for every source, fuel and writer state ---------- *)
+From MLA Require SrcTie3Repair SrcTie3RepairLoop.
+Check SrcTie3RepairLoop.convert_to_archive_sim.
+Theorem C05_tie_convert_to_archive_sim : ltac:(let t := type of SrcTie3RepairLoop.convert_to_archive_sim in exact t).
+Proof. exact SrcTie3RepairLoop.convert_to_archive_sim. Qed.
+Print Assumptions C05_tie_convert_to_archive_sim.
